@@ -37,24 +37,92 @@ def check(prog, rep):
 
 
 def check_scatter(prog, rep, m):
-    """return_type='xarray.DataArray': cells of zone iz are sorted_indices[breaks[iz-1] or 0 : breaks[iz]]"""
+    """return_type='xarray.DataArray': cells of zone iz are sorted_indices[breaks[iz-1] or 0 : breaks[iz]] - the slice
+    bounds are evaluated (if/else or conditional expression alike) for the first and for a later zone"""
     import ast
-    from ..program import norm
+    from fractions import Fraction
+    from ..kai import Arr, Interp, View
+    from ..kutil import CannotEvaluate, evaluate
+    from ..program import AnalysisIncomplete, norm
+    from ..sym import App, Rat, Sym, subst, walk_atoms
     f = m.funcs.get('_stats_numpy')
     if f is None:
         return
-    ok0 = ok1 = init = False
+    init = False
     for n in f.own_nodes():
-        if isinstance(n, ast.Assign) and norm(n.targets[0]) == 'zs':
-            t = norm(n.value).replace(' ', '')
-            if t == 'sorted_indices[:zone_breaks[iz]]':
-                ok0 = True
-            if t == 'sorted_indices[zone_breaks[iz-1]:zone_breaks[iz]]':
-                ok1 = True
-        if isinstance(n, ast.Assign) and norm(n.targets[0]) == 'result' and isinstance(n.value, ast.Call) and \
-                norm(n.value.func) == 'np.full' and len(n.value.args) == 2 and norm(n.value.args[1]) == 'np.nan':
+        if isinstance(n, ast.Assign) and isinstance(n.value, ast.Call) and norm(n.value.func) in ('np.full', 'numpy.full') and \
+                len(n.value.args) == 2 and norm(n.value.args[1]) in ('np.nan', 'numpy.nan'):
             init = True
+    loops = [n for n in f.own_nodes() if isinstance(n, ast.For) and any(
+        isinstance(x, ast.Assign) and norm(x.targets[0]) == 'zs' for x in ast.walk(n)) and not any(
+        isinstance(y, ast.For) and any(isinstance(x, ast.Assign) and norm(x.targets[0]) == 'zs' for x in ast.walk(y)) for y in n.body)]
+    ok = None
+    why = 'loop assigning the zone\'s cells not found'
+    if len(loops) == 1:
+        it = Interp(prog, f, {}, strict=False)
+        it.env.update({'sorted_indices': Arr('sorted_indices', 'param'), 'zone_breaks': Arr('zone_breaks', 'param'),
+                       'iz': Rat.sym('iz')})
+        it.k.arrays.update({'sorted_indices': it.env['sorted_indices'], 'zone_breaks': it.env['zone_breaks']})
+        try:
+            for st in loops[0].body:
+                if isinstance(st, ast.Assign) and norm(st.targets[0]) == 'iz':
+                    continue
+                try:
+                    it.stmt(st)
+                except AnalysisIncomplete:
+                    if any(isinstance(x, ast.Assign) and norm(x.targets[0]) == 'zs' for x in ast.walk(st)):
+                        raise
+                if 'zs' in it.env:
+                    break
+            zs = it.env.get('zs')
+            res = []
+            views = []
+            if isinstance(zs, View):
+                views = [(None, zs)]
+            elif isinstance(zs, Rat):
+                # merged branches: ite(cond, view_a, view_b) is kept as opaque views - evaluate each branch instead
+                views = []
+            if not views:
+                # evaluate per concrete zone index by re-running with iz bound to a number
+                for izv in (0, 3):
+                    it2 = Interp(prog, f, {}, strict=False)
+                    it2.env.update({'sorted_indices': Arr('sorted_indices', 'param'), 'zone_breaks': Arr('zone_breaks', 'param'),
+                                    'iz': Rat.const(izv)})
+                    it2.k.arrays.update({'sorted_indices': it2.env['sorted_indices'], 'zone_breaks': it2.env['zone_breaks']})
+                    for st in loops[0].body:
+                        if isinstance(st, ast.Assign) and norm(st.targets[0]) == 'iz':
+                            continue
+                        try:
+                            it2.stmt(st)
+                        except AnalysisIncomplete:
+                            if any(isinstance(x, ast.Assign) and norm(x.targets[0]) == 'zs' for x in ast.walk(st)):
+                                raise
+                        if 'zs' in it2.env:
+                            break
+                    views.append((izv, it2.env.get('zs')))
+            else:
+                views = [(0, zs), (3, zs)]
+            for izv, v in views:
+                if not isinstance(v, View) or v.arr.name != 'sorted_indices' or len(v.axes) != 1 or v.axes[0][0] != 'slice':
+                    raise CannotEvaluate('zs is not a slice of sorted_indices: %r' % (v,))
+                lo, hi = v.axes[0][1], v.axes[0][2]
+                env = {}
+
+                def val(x):
+                    if x is None:
+                        return None
+                    x = subst(x, lambda a: Rat.const(izv) if a == Sym('iz') else None)
+                    for a in walk_atoms(x):
+                        if isinstance(a, App) and a.name in ('read', 'cell?') and a.args[0] == 'zone_breaks':
+                            i = evaluate(a.args[1], {})
+                            env[a] = Fraction({0: 5, 2: 20, 3: 30}.get(int(i), 99))
+                    return evaluate(x, env)
+                res.append((izv, val(lo), val(hi)))
+            ok = res == [(0, None, 5), (3, 20, 30)] or res == [(0, 0, 5), (3, 20, 30)]
+            why = 'slice for zone 0 and zone 3 (breaks 5, ., 20, 30): %s' % res
+        except (AnalysisIncomplete, CannotEvaluate) as e:
+            ok, why = None, str(e)
     rep.add('Z-scatter', f, 'stats', 'raster output: zs = sorted_indices[breaks[iz-1]:breaks[iz]]', f.node.lineno,
-            ok0 and ok1 and init,
+            (ok and init) if ok is not None else None,
             'the cells of zone iz are the permutation entries between its break and the previous one (0 for the first '
-            'zone), and every other cell stays NaN (NaN-initialised result)')
+            'zone), and every other cell stays NaN (NaN-initialised result: %s); %s' % (init, why))
